@@ -505,6 +505,7 @@ def step (st : DState) (line : String) : DState × String :=
   | ["SPEC", "same_hier"] => (st, bit (sameHier st.g st.h))
   | ["SPEC", "tables_preserved"] => (st, bit (tablesPreserved st.g st.h))
   | ["SPEC", "iter", c, out] => (st, bit (Spec.iterSpecOK st.h c (lst out)))
+  | ["SPEC", "uniq"] => (st, bit (Spec.uniqueB st.h (st.h.length + 2)))
   | ["SPEC", "view", c, out] => (st, bit (Spec.viewSpecOK st.h c (lst out)))
   | ["BC", tabs, ins] => match parseTables tabs, parseIns ins with
     | some T, some is => (st, showM (Model.buildBlocks (Model.fromBytecode T is)) printHier)
